@@ -996,6 +996,17 @@ impl<'a> Checker<'a> {
                         if off != exp_off {
                             self.push("C04", "mismatch", "selector.offset", format!("{}: expected {:?} got {:?}", ctx, exp_off, off));
                         }
+                        // the textual form of a reported cursor (what CSV files and OFFSET in queries carry) reads
+                        // back as the same cursor, alignment included
+                        for c in [off.begin, off.end] {
+                            let text = format!("{}", c);
+                            let text2 = text.clone();
+                            if let Some(back) = self.guarded("C04", "cursor.text_form", &ctx, move || Cursor::try_from(text2.as_str()).ok()) {
+                                if back != Some(c) {
+                                    self.push("C04", "mismatch", "cursor.text_form", format!("{}: cursor {:?} is written as {:?}, which reads back as {:?}", ctx, c, text, back));
+                                }
+                            }
+                        }
                     }
                 }
             }
@@ -1113,6 +1124,16 @@ impl<'a> Checker<'a> {
         if let Err(p) = walk {
             self.push("C01", "panic", "dump.walk", crate::exec::normalise_panic(&p));
             return;
+        }
+        // a selector may name the same target more than once (two parts of one annotation, the same span
+        // twice): the annotation is indexed once under each of its targets
+        for v in [&mut exp_resmeta, &mut exp_setmeta, &mut exp_aa] {
+            v.sort();
+            v.dedup();
+        }
+        for v in [&mut exp_text, &mut exp_keymeta, &mut exp_datameta] {
+            v.sort();
+            v.dedup();
         }
         self.cmp_index3("dump.dataset_data_annotation_map", &exp_dda, &dump.dataset_data_annotation_map);
         self.cmp_index3("dump.textrelationmap", &exp_text, &dump.textrelationmap);
